@@ -41,7 +41,11 @@ class World:
     """Ground-truth recorder shared by harness, tasks and runners."""
 
     def __init__(self):
-        self.reset(epoch=int(os.environ.get('VERIF_EPOCH', '1')), file=os.environ.get('VERIF_WORLD_FILE') or None)
+        # environment-driven initial state: a spawned worker is a fresh interpreter and
+        # learns the harness parameters of a real-backend run (E4) this way
+        self.reset(epoch=int(os.environ.get('VERIF_EPOCH', '1')), file=os.environ.get('VERIF_WORLD_FILE') or None,
+                   faults=[int(x) for x in os.environ.get('VERIF_FAULTS', '').split(',') if x])
+        self.die = frozenset(int(x) for x in os.environ.get('VERIF_DIE', '').split(',') if x)
 
     def reset(self, *, epoch: int = 1, faults=(), file: str | None = None, emit=None, on_run=None):
         self.epoch = epoch
@@ -52,11 +56,13 @@ class World:
         self.on_run = on_run                  # optional callback(task) inside run()
         self.child = None                     # index of the virtual child executing (E3)
         self.record_env = bool(os.environ.get('VERIF_RECORD_ENV'))
+        self.die = frozenset()                # labels whose run() kills its own process (real backends only)
 
     def rec(self, *ev):
         self.log.append(ev)
         if self.file:
-            line = json.dumps([os.getpid(), threading.get_ident(), *ev]) + '\n'
+            import time
+            line = json.dumps([os.getpid(), threading.get_ident(), *ev, {'t': time.monotonic()}]) + '\n'
             fd = os.open(self.file, os.O_WRONLY | os.O_APPEND | os.O_CREAT, 0o644)
             try:
                 os.write(fd, line.encode())
@@ -151,6 +157,10 @@ def _run(self):
     WORLD.rec('start', k)
     if WORLD.record_env:
         _record_env(self, k)
+    if self.label in WORLD.die:
+        import signal
+        WORLD.rec('suicide', k)
+        os.kill(os.getpid(), signal.SIGKILL)
     _emit(self)
     if WORLD.on_run is not None:
         WORLD.on_run(self)
